@@ -94,40 +94,56 @@ def jopt (o : Option Str) : Json := match o with | some s => jstr s | none => .n
 def jid (i : Reqif.Ident) : Json := jstr i.render
 def jkind (k : Kind) : Json := jstr k.name
 
-def jAttrDef (a : AttrDefEl) : Json :=
-  Json.mkObj [("id", jid a.id), ("kind", jkind a.kind), ("long_name", jopt a.longName), ("desc", jopt a.desc),
-    ("multi_valued", match a.multiValued with | some b => .bool b | none => .null), ("dt_ref", jid a.dtRef)]
+def jbool? (o : Option Bool) : Json := match o with | some b => .bool b | none => .null
+
+def jAttrDef (rt : Option Str) (a : AttrDefEl) : Json :=
+  Json.mkObj [("id", jid (a.ident rt)), ("kind", jkind a.kind), ("long_name", jopt a.longName), ("desc", jopt a.desc),
+    ("multi_valued", jbool? a.multiValued), ("dt_ref", jid a.dtRef)]
+
+def jStdAttrDef (owner : Str → Reqif.Ident) (x : Str × Kind) : Json :=
+  Json.mkObj [("id", jid (owner x.1)), ("kind", jkind x.2), ("long_name", jstr ("ReqIF.".toList ++ x.1)), ("desc", .null),
+    ("multi_valued", .null), ("dt_ref", jid (.stdDatatype x.1))]
 
 def jSpecType (t : SpecTypeEl) : Json :=
-  Json.mkObj [("id", jid t.id), ("long_name", jopt t.longName), ("desc", jopt t.desc),
-    ("std", Json.arr (t.std.map jAttrDef).toArray), ("custom", Json.arr (t.custom.map jAttrDef).toArray)]
+  Json.mkObj [("id", jid (sotIdent t.rt)), ("long_name", jopt t.longName), ("desc", jopt t.desc),
+    ("std", Json.arr (t.std.map (jStdAttrDef (.stdAttr t.rt))).toArray),
+    ("custom", Json.arr (t.custom.map (jAttrDef t.rt)).toArray)]
 
-def jValue (v : ValueEl) : Json :=
-  Json.mkObj [("kind", jkind v.kind), ("def_ref", jid v.defRef), ("the_value", jopt v.theValue),
-    ("enum_refs", Json.arr (v.enumRefs.map jid).toArray)]
+def jSpecificationType (t : SpecificationTypeEl) : Json :=
+  Json.mkObj [("id", jid (stIdent t.mt)), ("long_name", jopt t.longName), ("desc", jopt t.desc),
+    ("std", Json.arr (t.std.map (jStdAttrDef (.stdSpecAttr t.mt))).toArray), ("custom", Json.arr #[])]
+
+def jStdValue (owner : Str → Reqif.Ident) (v : StdValueEl) : Json :=
+  Json.mkObj [("kind", jkind v.kind), ("def_ref", jid (owner v.name)), ("the_value", jopt v.theValue),
+    ("enum_refs", Json.arr #[])]
+
+def jAttrValue (rt : Option Str) (v : AttrValueEl) : Json :=
+  Json.mkObj [("kind", jkind v.kind), ("def_ref", jid (.attrDef rt v.ad v.kind)), ("the_value", jopt v.theValue),
+    ("enum_refs", Json.arr (v.enumRefs.map (fun u => jid (.obj u))).toArray)]
 
 def jDatatype (d : DatatypeEl) : Json :=
-  Json.mkObj [("id", jid d.id), ("kind", jkind d.kind), ("long_name", jopt d.longName),
+  Json.mkObj [("id", jid d.key.ident), ("kind", jkind d.kind), ("long_name", jopt d.longName),
     ("values", match d.values with
       | none => .null
       | some vs => Json.arr (vs.map fun v =>
-          Json.mkObj [("id", jid v.id), ("long_name", jopt v.longName), ("desc", jopt v.desc)]).toArray)]
+          Json.mkObj [("id", jid (.obj v.uuid)), ("long_name", jopt v.longName), ("desc", jopt v.desc)]).toArray)]
 
 def jDoc (d : Doc) : Json :=
   Json.mkObj [
-    ("header_id", jid d.headerId),
+    ("header_id", jid (.obj d.headerUuid)),
     ("datatypes", Json.arr (d.datatypes.map jDatatype).toArray),
     ("spec_types", Json.arr (d.specTypes.map jSpecType).toArray),
-    ("specification_type", jSpecType d.specificationType),
+    ("specification_type", jSpecificationType d.specificationType),
     ("spec_objects", Json.arr (d.specObjects.map fun o =>
-      Json.mkObj [("id", jid o.id), ("long_name", jopt o.longName),
-        ("values", Json.arr (o.values.map jValue).toArray), ("type_ref", jid o.typeRef)]).toArray),
+      Json.mkObj [("id", jid (.obj o.uuid)), ("long_name", jopt o.longName),
+        ("values", Json.arr ((o.std.map (jStdValue (.stdAttr o.rt))) ++ o.attrs.map (jAttrValue o.rt)).toArray),
+        ("type_ref", jid (sotIdent o.rt))]).toArray),
     ("specification", Json.mkObj [
-      ("id", jid d.specification.id), ("long_name", jopt d.specification.longName),
-      ("desc", jopt d.specification.desc), ("type_ref", jid d.specification.typeRef),
-      ("values", Json.arr (d.specification.values.map jValue).toArray),
+      ("id", jid (.obj d.specification.uuid)), ("long_name", jopt d.specification.longName),
+      ("desc", jopt d.specification.desc), ("type_ref", jid (stIdent d.specification.mt)),
+      ("values", Json.arr (d.specification.values.map (jStdValue (.stdSpecAttr d.specification.mt))).toArray),
       ("children", Json.arr (d.specification.children.map fun h =>
-        Json.mkObj [("id", jid h.id), ("obj_ref", jid h.objRef)]).toArray)]),
+        Json.mkObj [("id", jid (.hier h.uuid)), ("obj_ref", jid (.obj h.uuid))]).toArray)]),
     ("defs", Json.arr (d.defs.map jid).toArray),
     ("refs", Json.arr (d.refs.map jid).toArray)]
 
